@@ -157,6 +157,12 @@ func randomCase(rng *rand.Rand, prop string) *Case {
 			c.Msgs[i] = MsgSpec{Kind: 'N', Enc: 'q'}
 			continue
 		}
+		if rng.Intn(6) == 0 && c.Msgs[i].From != "" {
+			c.Msgs[i].From = "j\u00fc" + c.Msgs[i].From // a non-ASCII local part
+		}
+		if rng.Intn(6) == 0 && len(c.Msgs[i].Rcpts) > 0 {
+			c.Msgs[i].Rcpts[0] = "\u00e9" + c.Msgs[i].Rcpts[0]
+		}
 		if rng.Intn(25) == 0 {
 			c.Msgs[i].Rcpts = nil
 		}
@@ -569,6 +575,49 @@ func generate(r *hx.Run, prop string) []*Case {
 			}
 		}
 	}
+	// envelope addresses with non-ASCII local parts / domains x every capability subset (SMTPUTF8, 8BITMIME, DSN ...
+	// present or absent), EHLO accepted or HELO fallback, DSN options: the parameters must follow the EHLO reply in force,
+	// never the address text
+	if prop == "C04" {
+		intl := [][2]string{{"j\u00fcrgen@from.test", "r\u00fcdiger@to.test"}, {"s@ex\u00e4mple.test", "r@b\u00fccher.test"}, {"\u03b4\u03bf\u03ba\u03b9\u03bc\u03ae@from.test", "plain@to.test"}}
+		for mask := 0; mask < 16; mask++ {
+			var caps []string
+			for i, k := range allCaps {
+				if mask&(1<<i) != 0 {
+					caps = append(caps, k)
+				}
+			}
+			for ai, a := range intl {
+				for _, helo := range []bool{false, true} {
+					for _, dsn := range []bool{false, true} {
+						if !thorough && helo && dsn && ai > 0 {
+							continue
+						}
+						var sc []smtpx.Decision
+						if helo {
+							sc = scriptWith(map[int]string{1: negDev[1]})
+						}
+						c := base(2, 2, []byte{'q', 'n'}[(mask+ai)%2], caps, sc)
+						for i := range c.Msgs {
+							c.Msgs[i].From = fmt.Sprintf("%d%s", i, a[0])
+							c.Msgs[i].Rcpts[1] = fmt.Sprintf("%d%s", i, a[1])
+						}
+						if dsn {
+							c.Ret, c.Notify = "HDRS", "SUCCESS,FAILURE"
+						}
+						c.Prog = []string{"das", "send", "reset"}[(mask+ai)%3]
+						add(c)
+						if mask%4 == 1 { // inside TLS with another set
+							ct := *c
+							ct.Caps = append(append([]string{}, caps...), "STARTTLS")
+							ct.TLS, ct.CapsTLS = 'M', allCaps[:1]
+							add(&ct)
+						}
+					}
+				}
+			}
+		}
+	}
 	// the other entry points (same oracles): DialAndSend, Dial+Send+Close, Send/Reset/Send, two smtp.Clients of one Client
 	for _, prog := range []string{"dasn", "send", "reset", "two"} {
 		for _, noNoop := range []bool{false, true} {
@@ -603,7 +652,7 @@ func RunProp(r *hx.Run, replay []hx.Case, prop string) {
 	var ids []string
 	if replay != nil {
 		for _, rc := range replay {
-			if rc.Kind == "dot" {
+			if rc.Kind == "dot" || rc.Kind == "smtp" {
 				continue
 			}
 			c, err := ParseCase(rc.Args)
